@@ -158,6 +158,23 @@ class SparselyBin(Factory, Container):
             out.bins[i] = Count.ed(v.entries)
         return out.specialize()
 
+
+    def _checkContent(self, other):
+        """Raise ContainerException unless the bins of ``other`` can be merged with the bins of ``self``.
+
+        Bins that exist on both sides are checked when they are added; this covers the bins that exist on one side
+        only (or on neither side yet), which would otherwise be merged silently whatever their type.
+        """
+        if self.value is not None and other.value is not None:
+            self.value + other.value  # the (unfilled) templates must be compatible, at any depth
+            return
+        mine = [v.name for v in self.bins.values()][:1] or [self.value.name if self.value is not None else self.contentType]
+        theirs = [v.name for v in other.bins.values()][:1] or [
+            other.value.name if other.value is not None else other.contentType
+        ]
+        if mine != theirs:
+            raise ContainerException(f"cannot add {self.name}s because their bins differ ({mine[0]} vs {theirs[0]})")
+
     @inheritdoc(Container)
     def zero(self):
         return self._likeSelf(SparselyBin(self.binWidth, self.quantity, self.value, self.nanflow.zero(), self.origin))
@@ -181,6 +198,7 @@ class SparselyBin(Factory, Container):
                 raise ContainerException(
                     f"cannot add SparselyBins because origin differs ({self.origin} vs {other.origin})"
                 )
+            self._checkContent(other)
 
             out = SparselyBin(
                 self.binWidth,
